@@ -26,7 +26,7 @@ SHARDS = {"quick": 8, "thorough": 16}
 RULE = ("include graphs {single, chain A->B, diamond A->{B,C}->D, A->missing leaf, A->unparsable leaf} behind file: URLs "
         "x caller scripts {load; deferred_load+load; deferred_load(A)+deferred_load(B)+load(B)+load(A); Section.include "
         "on an attached Section; Section.repository + get_terminology_equivalent; refresh; TemplateHandler load / "
-        "deferred_load} x cache {empty, warm, stale}; schedules: all with <= 1 preemption (quick) / <= 2 (thorough) at "
+        "deferred_load} x cache {empty, warm, stale (older than the cache age, content outdated), warm-outdated (fresh but outdated content)}; schedules: all with <= 1 preemption (quick) / <= 2 (thorough) at "
         "table-access granularity, plus seeded random schedules; non-trivial = execution with at least one loader "
         "thread; distinct = hash of the observed interleaving (sequence of thread:scheduling-point)")
 ASSUMPTIONS = ["scheduling points = accesses to the loaded / loading tables, Thread.start, Thread.join, thread exit "
@@ -80,6 +80,15 @@ def build_graph(gname, sdir, tag):
     return urls
 
 
+def rewrite_graph(gname, urls):
+    for n, incs in GRAPHS[gname].items():
+        with open(urls[n][7:], "w") as f:
+            if incs == "broken":
+                f.write(res_xml(n, [], broken=True))
+            else:
+                f.write(res_xml(n, [(urls[t], p) for t, p in incs]))
+
+
 SCRIPTS = {
     "load": [("load", "A")],
     "deferred+load": [("deferred", "A"), ("load", "A"), ("load", "A")],
@@ -89,6 +98,9 @@ SCRIPTS = {
     "include-after-deferred": [("deferred", "A"), ("include", "A", "/A_main")],
     "repository": [("repository", "A")],
     "refresh": [("deferred", "A"), ("load", "A"), ("refresh", "A"), ("load", "A")],
+    "deferred-root-load-leaf": [("deferred", "A"), ("load", "B"), ("load", "B"), ("load", "A"), ("load", "B")],
+    "refresh-after-background-load": [("deferred", "A"), ("refresh", "A"), ("load", "A"), ("load", "A")],
+    "refresh-after-repository": [("repository", "A"), ("refresh", "A"), ("load", "A")],
     "template-load": [("tdeferred", "A"), ("tload", "A"), ("tload", "A")],
     "template-deferred-twice": [("tdeferred", "A"), ("tdeferred", "A"), ("tload", "A")],
 }
@@ -163,6 +175,15 @@ def run_script(script, urls, use_deferred=True):
                     s._repository = url
                 r = s.get_terminology_equivalent()
                 outcomes.append(("doc", model.model_of(r)) if r is not None else ("none", None))
+            elif op == "modify":
+                # the resource changes on disk (same structure, other content)
+                path = url[7:]
+                if os.path.exists(path):
+                    with open(path) as f:
+                        text = f.read()
+                    with open(path, "w") as f:
+                        f.write(text.replace("<author>", "<author>changed ", 1).replace("def of", "new def of"))
+                outcomes.append(("none", None))
             elif op == "refresh":
                 r = terminology.refresh(url)
                 outcomes.append(("none", None))
@@ -195,15 +216,24 @@ def same_outcome(a, b):
 
 def prepare_cache(state, script, urls):
     shutil.rmtree(cache_dir(), ignore_errors=True)
-    if state in ("warm", "stale"):
+    if state in ("warm", "stale", "warm-outdated"):
         reset_tables()
         with warnings.catch_warnings():
             warnings.simplefilter("ignore")
             run_script([s for s in script if s[0] in ("load", "tload", "include", "repository")], urls, use_deferred=False)
-        if state == "stale" and os.path.isdir(cache_dir()):
+        if state in ("stale", "warm-outdated") and os.path.isdir(cache_dir()):
+            # the cache holds an older version of every resource; 'stale' files are also older than the
+            # cache age (they must be fetched again), 'warm-outdated' ones are fresh (they may be served
+            # until a refresh)
             old = time.time() - 2 * 86400 - 60
             for f in os.listdir(cache_dir()):
-                os.utime(os.path.join(cache_dir(), f), (old, old))
+                fp = os.path.join(cache_dir(), f)
+                with open(fp) as fh:
+                    text = fh.read()
+                with open(fp, "w") as fh:
+                    fh.write(text.replace("<author>", "<author>outdated ", 1).replace("def of", "old def of"))
+                if state == "stale":
+                    os.utime(fp, (old, old))
     reset_tables()
 
 
@@ -311,7 +341,7 @@ def explore(ctx, scn, sdir, bound, n_random):
     rec = ctx.rec
     urls = build_graph(scn["graph"], sdir, "%d" % os.getpid())
     # sequential reference
-    prepare_cache("empty", SCRIPTS[scn["script"]], urls)
+    prepare_cache(scn["cache"], SCRIPTS[scn["script"]], urls)
     with warnings.catch_warnings():
         warnings.simplefilter("ignore")
         ref, _ = run_script(SCRIPTS[scn["script"]], urls, use_deferred=False)
@@ -385,7 +415,7 @@ def scenarios():
                 continue
             if g == "missing-root" and script not in ("load", "deferred+load", "template-load", "repository"):
                 continue
-            for cache in ("empty", "warm", "stale"):
+            for cache in ("empty", "warm", "stale", "warm-outdated"):
                 if cache != "empty" and script in ("include", "repository", "template-deferred-twice"):
                     continue
                 out.append({"graph": g, "script": script, "cache": cache})
@@ -419,7 +449,7 @@ def replay(case, ctx):
     sdir = env.scratch()
     scn = case["scenario"]
     urls = build_graph(scn["graph"], sdir, "replay")
-    prepare_cache("empty", SCRIPTS[scn["script"]], urls)
+    prepare_cache(scn["cache"], SCRIPTS[scn["script"]], urls)
     with warnings.catch_warnings():
         warnings.simplefilter("ignore")
         ref, _ = run_script(SCRIPTS[scn["script"]], urls, use_deferred=False)
